@@ -34,6 +34,73 @@ def clean_field(cat):
     return field, (accept > 0 and recorded == accept), ev
 
 
+def session_field(cat, param):
+    """The protocol attribute that remembers one of CONNECT's session parameters (cleanStart, version), and the discipline of
+    its assignments: {'field', 'at_connect' (assigned from the parameter on every accepting path of connect(), before the CONNECT
+    is written), 'event', 'elsewhere' (assignments of that field anywhere else: rejecting paths of connect(), connect() refused
+    by the state, handlers, timers - each lets something other than the CONNECT of this connection decide the mode)}."""
+    conn = ("attr", SELF, "connReq")
+    vals = (("param", param), ("attr", conn, param), ("attr", ("param", "request"), param))
+    field = None
+    ev = None
+    for tr in contexts(cat):
+        for e in tr.events:
+            if e.kind == "SETATTR" and e.a["obj"] == SELF and e.a["val"] in vals:
+                if field is None or (tr.kind == "API" and tr.name == "connect"):
+                    field, ev = e.a["field"], e
+    if field is None:
+        return {"field": None, "at_connect": False, "event": None, "elsewhere": []}
+    accept = recorded = 0
+    elsewhere = []
+    for tr in contexts(cat):
+        sets = [e for e in tr.events if e.kind == "SETATTR" and e.a["obj"] == SELF and e.a["field"] == field]
+        accepting = tr.kind == "API" and tr.name == "connect" and tr.slot == "IDLE" and any(e.kind == "WRITE" for e in tr.events)
+        if accepting:
+            accept += 1
+            w = next(e for e in tr.events if e.kind == "WRITE")
+            good = [e for e in sets if e.a["val"] in vals and e.seq < w.seq]
+            if good:
+                recorded += 1
+            elsewhere.extend((tr, e) for e in sets if e not in good)
+        else:
+            # re-recording the parameter of the very request whose CONNECT was accepted (self.connReq.<param>, while that request is
+            # the pending one) changes nothing
+            same = [e for e in sets if e.a["val"] == ("attr", conn, param) and tr.kind == "NET" and tr.name == "CONNACK" and tr.slot == "CONNECTING"]
+            elsewhere.extend((tr, e) for e in sets if e not in same)
+    return {"field": field, "at_connect": accept > 0 and recorded == accept, "event": ev, "elsewhere": elsewhere}
+
+
+def rule_session_field(ctx, cat, rule, param, what, consequence):
+    """Obligations for one session parameter (see session_field)."""
+    from .rules.common import where, cls_short
+    sf = session_field(cat, param)
+    cq = cls_short(cat.cls.qual)
+    if sf["field"] is None:
+        ctx.ob(rule, "%s %s of the CONNECT is remembered" % (cq, what), False, where=cat.cls.module.path, construct="session/%s/not-recorded" % param,
+               msg="no protocol field is assigned connect()'s %s: %s" % (param, consequence))
+        return sf
+    ev = sf["event"]
+    ctx.ob(rule, "%s %s is recorded when connect() is accepted, before the CONNECT is written" % (cq, what), sf["at_connect"],
+           where=where(ev) if ev is not None else cat.cls.module.path, function=ev.func if ev is not None else "",
+           construct="session/%s/recorded-at-connect" % param,
+           msg="self.%s is not assigned from connect()'s %s on every accepting path of connect() before the CONNECT goes out: %s" % (
+               sf["field"], param, consequence))
+    seen = set()
+    for tr, e in sf["elsewhere"]:
+        key = (e.func, tr.kind)
+        if key in seen:
+            continue
+        seen.add(key)
+        ctx.ob(rule, "%s %s is decided by the accepted CONNECT only (%s)" % (cq, what, tr.label()), False, where=where(e), function=e.func,
+               construct="session/%s/assigned-elsewhere/%s/%s" % (param, e.func, tr.kind),
+               msg="self.%s is also assigned in context %s (%s), not only when connect() is accepted: %s" % (
+                   sf["field"], tr.label(), e.func.split(".")[-1], consequence))
+    if not sf["elsewhere"]:
+        ctx.ob(rule, "%s %s is assigned nowhere else" % (cq, what), True, where=where(ev) if ev is not None else "", construct="session/%s/only-at-connect" % param,
+               nontrivial=False)
+    return sf
+
+
 def clean_fact(path, field):
     """Truth of the clean-session flag on this path (from its branch conditions), or None if the path does not test it."""
     aliases = (("attr", SELF, field), ("attr", ("attr", SELF, "connReq"), "cleanStart"), ("param", "cleanStart"))
